@@ -934,9 +934,9 @@ Proof.
         change (Z.of_nat 0) with 0. rewrite (signed_small 0), (signed_small 1) by lia.
         change (0 <? 1) with true. cbv beta iota.
         step'' prog_add10VW. step'' prog_add10VW. reflexivity.
-      + cbn [st_pc st_frame st_mem nth_error]. rewrite upd_same.
+      + cbn [st_pc st_frame st_mem]. rewrite upd_same.
         cbn [rd val to_words wr]. change (B ^ Z.of_nat 0) with 1. rewrite Z.div_1_r.
-        repeat split. intro; reflexivity.
+        split; [reflexivity|]. split; [lia|]. intro; reflexivity.
     - (* first word, then the rest *)
       pose proof (rd_words_ok_nth m x (S n1) Hwx) as Hwn.
       assert (Hw0 : wfrom x (Z.of_nat (S n1)) m 0) by (intros j Hj; apply Hwn; lia).
@@ -951,7 +951,7 @@ Proof.
       { unfold stV. do 2 eexists.
         step'' prog_add10VW. rewrite F1. step'' prog_add10VW. rewrite F3.
         step'' prog_add10VW. rewrite F6. step'' prog_add10VW. rewrite F0.
-        step'' prog_add10VW. step'' prog_add10VW.
+        step'' prog_add10VW. step'' prog_add10VW. replace 10000000000000000000 with B by (rewrite B_eq; reflexivity).
         step'' prog_add10VW. rewrite (sub_lo_small (Z.of_nat (S n1)) 1 0) by lia.
         replace (Z.of_nat (S n1) - 1 - 0) with (Z.of_nat n1) by lia.
         step'' prog_add10VW. rewrite cond_l_sub by lia. rewrite (signed_small (Z.of_nat (S n1))), (signed_small 1) by lia.
@@ -962,7 +962,7 @@ Proof.
         step'' prog_add10VW.
         step'' prog_add10VW. st z.
         step'' prog_add10VW.
-        step'' prog_add10VW.
+        step'' prog_add10VW. rewrite (add_lo_small 0 1 0) by lia. change (0 + 1 + 0) with 1.
         destruct (addw0_eq (m x) y bx Hx_0 Hy) as [E1 E2]. cbv zeta in E1, E2. fold w0 c0 in E1, E2.
         rewrite E1, E2. reflexivity. }
       destruct Pre as (bx' & fl' & Pre).
@@ -991,4 +991,398 @@ Proof.
   exists N, s'. split.
   - intros f. rewrite (run_steps N (S f) _ _ _ _ HS). now apply run_ret.
   - split; assumption.
+Qed.
+
+(* ================================================================ sub10VW *)
+(* MOVQ x[i], r; SUBQ CX, r; SBBQ CX, CX; MOVQ DX, AX; ANDQ CX, AX; ADDQ AX, r; NEGQ CX *)
+Lemma subw_eq xi c : 0 <= xi < B -> 0 <= c < B ->
+  let k := b2z (xi - c - 0 <? 0) in
+  k = snd (rws xi c) /\ add_lo (sub_lo xi c 0) (Z.land B (neg64 k)) 0 = fst (rws xi c).
+Proof.
+  intros Hx Hc k. bw. subst k. unfold rws. rewrite Z.sub_0_r.
+  destruct (Z.ltb_spec (xi - c) 0); cbn [b2z fst snd]; split; try reflexivity.
+  - rewrite neg64_1, land_max_r by lia. rewrite sub_lo_under by lia. rewrite add_lo_over by lia. lia.
+  - rewrite neg64_0, Z.land_0_r. rewrite sub_lo_small by lia. rewrite add_lo_small by lia. lia.
+Qed.
+
+Lemma mask_zero c : 0 <= c <= 1 -> (neg64 c =? 0) = (c =? 0).
+Proof.
+  intros H. w64. destruct (neg64_cases c H) as [[-> ->] | [-> ->]]; [reflexivity|].
+  destruct (Z.eqb_spec MAX64 0); [lia | reflexivity].
+Qed.
+
+Lemma cond_cc_neg c a b d : 0 <= c <= 1 ->
+  cond_holds CondCC (mkFlags (Some (negb (neg64 c =? 0))) a b d) = Some (c =? 0).
+Proof. intros H. cbn [cond_holds fCF option_map]. rewrite negb_involutive, mask_zero by assumption. reflexivity. Qed.
+
+Section Sub10VW.
+Variables (E : env) (z x n : Z).
+Variables (r9 r12 r13 r14 : Z).
+Hypothesis Hm : 8 * e_msize E <= W64.
+Hypothesis Ha : asc_ok z x n.
+Hypothesis Hx0 : 0 <= x.
+Hypothesis Hz0 : 0 <= z.
+Hypothesis Hx1 : x + n <= e_msize E.
+Hypothesis Hz1 : z + n <= e_msize E.
+Hypothesis HnH : n < HALF64.
+
+Notation stS fr r11 := (stV z x r9 r12 r13 r14 fr r11).
+Notation P := prog_sub10VW.
+
+(* the eight-instruction word step of the unrolled loop; xi names the loaded word *)
+Ltac subw ax az xi c Hxi Hc :=
+  step'' P; ld ax; rewrite ?upd_other by (unfold asc_ok in Ha; lia); fold xi;
+  step'' P;
+  step'' P; rewrite sbb_self by apply b2z_01;
+  step'' P;
+  step'' P;
+  step'' P;
+  step'' P; st az;
+  step'' P;
+  let E0 := fresh "E" in let E1 := fresh "E" in
+  destruct (subw_eq xi c Hxi Hc) as (E0 & E1); cbv zeta in E0, E1;
+  rewrite E1, E0; clear E0 E1; rewrite neg64_neg64 by apply rws_carry.
+
+Lemma rips_4 k i c m : 0 <= i -> i + 4 <= n ->
+  let w0 := rws (m (x + i)) c in
+  let w1 := rws (m (x + i + 1)) (snd w0) in
+  let w2 := rws (m (x + i + 2)) (snd w1) in
+  let w3 := rws (m (x + i + 3)) (snd w2) in
+  rips (S (S (S (S k)))) z x i c m =
+  rips k z x (i + 4) (snd w3)
+    (upd (upd (upd (upd m (z + i) (fst w0)) (z + i + 1) (fst w1)) (z + i + 2) (fst w2)) (z + i + 3) (fst w3)).
+Proof.
+  intros Hi0 Hi4 w0 w1 w2 w3. unfold asc_ok in Ha.
+  rewrite !rips_S.
+  rewrite !upd_other by lia.
+  replace (x + (i + 1)) with (x + i + 1) by lia.
+  replace (x + (i + 1 + 1)) with (x + i + 2) by lia.
+  replace (x + (i + 1 + 1 + 1)) with (x + i + 3) by lia.
+  replace (z + (i + 1)) with (z + i + 1) by lia. replace (z + (i + 1 + 1)) with (z + i + 2) by lia.
+  replace (z + (i + 1 + 1 + 1)) with (z + i + 3) by lia. replace (i + 1 + 1 + 1 + 1) with (i + 4) by lia.
+  reflexivity.
+Qed.
+
+(* L4: one word (through R11) *)
+Lemma sub10VW_L4_iter fr r11 ax bx i k c fl m :
+  0 <= i < n -> 1 <= k < HALF64 -> 0 <= c < B -> 0 <= m (x + i) < B ->
+  let w := rws (m (x + i)) c in
+  exists fl',
+    steps 12 E P (stS fr r11 ax bx c B i k fl m 48) =
+    Some (stS fr (fst w) (Z.land B (neg64 (snd w))) bx (snd w) B (i + 1) (k - 1) fl' (upd m (z + i) (fst w))
+              (if 1 <? k then 48%nat else 60%nat)).
+Proof.
+  intros Hi Hk Hc Hxi w. bw. pose proof HALF64_ge. unfold stV.
+  set (xi := m (x + i)) in *. eexists.
+  step'' P.
+  step'' P. ld (x + i). fold xi.
+  step'' P.
+  step'' P. rewrite sbb_self by apply b2z_01.
+  step'' P.
+  step'' P.
+  step'' P.
+  step'' P.
+  step'' P. st (z + i).
+  destruct (subw_eq xi c Hxi Hc) as (E0 & E1). cbv zeta in E0, E1.
+  rewrite E1, E0. clear E0 E1. rewrite neg64_neg64 by apply rws_carry. fold w.
+  step'' P. rewrite (add_lo_small i 1 0) by lia. replace (i + 1 + 0) with (i + 1) by lia.
+  step'' P. rewrite (sub_lo_small k 1 0) by lia. replace (k - 1 - 0) with (k - 1) by lia.
+  step'' P. rewrite cond_g_sub by lia. rewrite (signed_small 1), (signed_small k) by lia.
+  destruct (1 <? k); cbv beta iota; cbn [steps]; reflexivity.
+Qed.
+
+(* U4: four words, then JCC on the carry flag left by the last NEGQ *)
+Lemma sub10VW_block fr r11 ax bx i d c fl m :
+  0 <= i -> i + 4 <= n -> 0 <= c < B -> wfrom x n m i ->
+  let w0 := rws (m (x + i)) c in
+  let w1 := rws (m (x + i + 1)) (snd w0) in
+  let w2 := rws (m (x + i + 2)) (snd w1) in
+  let w3 := rws (m (x + i + 3)) (snd w2) in
+  exists fl',
+    steps 35 E P (stS fr r11 ax bx c B i d fl m 8) =
+    Some (stS fr r11 (Z.land B (neg64 (snd w3))) (fst w3) (snd w3) B (i + 4) d fl'
+              (upd (upd (upd (upd m (z + i) (fst w0)) (z + i + 1) (fst w1)) (z + i + 2) (fst w2)) (z + i + 3) (fst w3))
+              (if snd w3 =? 0 then 63%nat else 43%nat)).
+Proof.
+  intros Hi Hi4 Hc Hw w0 w1 w2 w3. bw. pose proof HALF64_ge. unfold stV.
+  pose proof (Hw i ltac:(lia)) as Hx_0. pose proof (Hw (i + 1) ltac:(lia)) as Hx_1.
+  pose proof (Hw (i + 2) ltac:(lia)) as Hx_2. pose proof (Hw (i + 3) ltac:(lia)) as Hx_3.
+  rewrite !Z.add_assoc in Hx_1, Hx_2, Hx_3.
+  set (x0 := m (x + i)) in *. set (x1 := m (x + i + 1)) in *.
+  set (x2 := m (x + i + 2)) in *. set (x3 := m (x + i + 3)) in *.
+  pose proof (rws_carry x0 c) as Hc0. fold w0 in Hc0.
+  pose proof (rws_carry x1 (snd w0)) as Hc1. fold w1 in Hc1.
+  pose proof (rws_carry x2 (snd w1)) as Hc2. fold w2 in Hc2.
+  pose proof (rws_carry x3 (snd w2)) as Hc3. fold w3 in Hc3.
+  assert (Hb0 : 0 <= snd w0 < B) by lia. assert (Hb1 : 0 <= snd w1 < B) by lia.
+  assert (Hb2 : 0 <= snd w2 < B) by lia.
+  eexists.
+  step'' P.
+  subw (x + i) (z + i) x0 c Hx_0 Hc. fold w0.
+  subw (x + i + 1) (z + i + 1) x1 (snd w0) Hx_1 Hb0. fold w1.
+  subw (x + i + 2) (z + i + 2) x2 (snd w1) Hx_2 Hb1. fold w2.
+  subw (x + i + 3) (z + i + 3) x3 (snd w2) Hx_3 Hb2. fold w3.
+  step'' P. replace (wrap (4 + i + 0)) with (i + 4) by (rewrite wrap_small; lia).
+  step'' P. rewrite cond_cc_neg by assumption.
+  destruct (snd w3 =? 0); cbv beta iota; cbn [steps]; reflexivity.
+Qed.
+
+(* the borrow is absorbed: nothing more to do in place, decCpy otherwise *)
+Lemma sub10VW_fin_inplace (k : nat) i m cf mf :
+  rips k z x i 0 m = (cf, mf) -> 0 <= i -> i + Z.of_nat k = n -> wfrom x n m i ->
+  z = x -> cf = 0 /\ mem_eq m mf.
+Proof.
+  intros HG Hi Hk Hw Ezx.
+  destruct (cpa_rips z x n m i k m Ha Hw Hi Hk) as [E1 E2].
+  { rewrite Ezx. apply cpa_self. }
+  rewrite HG in E1, E2. cbn [fst snd] in *. auto.
+Qed.
+
+Lemma sub10VW_fin_copy (k : nat) fr r11 ax bx cx dx i fl m cf mf :
+  rips k z x i 0 m = (cf, mf) -> 0 <= i -> i + Z.of_nat k = n -> wfrom x n m i ->
+  exists N s', steps N E P (stS fr r11 ax bx cx dx i (Z.of_nat k) fl m 68) = Some s' /\
+               nth_error P (st_pc s') = Some RET /\ st_frame s' = fr /\ cf = 0 /\ mem_eq (st_mem s') mf.
+Proof.
+  intros HG Hi Hk Hw.
+  destruct (cpyS_all E z x n fr m r9 r11 r12 r13 r14 Hm Ha Hx0 Hz0 Hx1 Hz1 HnH k i ax bx cx dx fl Hi Hk)
+    as (N & s' & HS & HR & HF & HC).
+  destruct (cpa_rips z x n m i k (st_mem s') Ha Hw Hi Hk HC) as [E1 E2].
+  rewrite HG in E1, E2. cbn [fst snd] in *.
+  exists N, s'. auto.
+Qed.
+
+(* E4: MOVQ CX, c+56(FP); RET *)
+Lemma sub10VW_E4 fr r11 ax bx cx dx si di fl m :
+  exists s', steps 2 E P (stS fr r11 ax bx cx dx si di fl m 60) = Some s' /\
+             nth_error P (st_pc s') = Some RET /\ st_frame s' = upd fr 7 cx /\ st_mem s' = m.
+Proof.
+  eexists. split.
+  - unfold stV. step'' P. step'' P. reflexivity.
+  - cbn [st_pc st_frame st_mem]. repeat split.
+Qed.
+
+(* C4: no borrow out of a block *)
+Lemma sub10VW_absorbed (k : nat) fr r11 ax bx dx i fl m cf mf :
+  rips k z x i 0 m = (cf, mf) -> 1 <= i -> i + Z.of_nat k = n -> wfrom x n m i ->
+  exists N s', steps N E P (stS fr r11 ax bx 0 dx i (Z.of_nat k) fl m 63) = Some s' /\
+               nth_error P (st_pc s') = Some RET /\ st_frame s' 7 = cf /\ mem_eq (st_mem s') mf.
+Proof.
+  intros HG Hi1 Hk Hw. bw. pose proof HALF64_ge. assert (Hi : 0 <= i) by lia.
+  assert (Pre : steps 3 E P (stS fr r11 ax bx 0 dx i (Z.of_nat k) fl m 63) =
+                Some (stS fr r11 ax bx 0 dx i (Z.of_nat k) (flags_sub (8 * x) (8 * z) 0) m
+                          (if 8 * x =? 8 * z then 60%nat else 66%nat))).
+  { unfold stV. step'' P. step'' P.
+    step'' P. rewrite cond_eq_sub by lia. destruct (8 * x =? 8 * z); reflexivity. }
+  destruct (Z.eqb_spec (8 * x) (8 * z)) as [Ezx | Nzx].
+  - destruct (sub10VW_fin_inplace k i m cf mf HG Hi Hk Hw ltac:(lia)) as [Ecf Em].
+    destruct (sub10VW_E4 fr r11 ax bx 0 dx i (Z.of_nat k) (flags_sub (8 * x) (8 * z) 0) m) as (s' & HS & HR & HF & HM).
+    exists (3 + 2)%nat, s'. split; [|split; [exact HR|split]].
+    + rewrite (steps_add 3 2 _ _ _ _ Pre). exact HS.
+    + rewrite HF, upd_same. auto.
+    + rewrite HM. exact Em.
+  - assert (P2 : steps 2 E P (stS fr r11 ax bx 0 dx i (Z.of_nat k) (flags_sub (8 * x) (8 * z) 0) m 66) =
+                 Some (stS (upd fr 7 0) r11 ax bx 0 dx i (Z.of_nat k) (flags_sub (8 * x) (8 * z) 0) m 68)).
+    { unfold stV. step'' P. step'' P. reflexivity. }
+    destruct (sub10VW_fin_copy k (upd fr 7 0) r11 ax bx 0 dx i (flags_sub (8 * x) (8 * z) 0) m cf mf HG Hi Hk Hw)
+      as (N & s' & HS & HR & HF & Ecf & Em).
+    exists (3 + (2 + N))%nat, s'. split; [|split; [exact HR|split]].
+    + rewrite (steps_add 3 (2 + N) _ _ _ _ Pre). rewrite (steps_add 2 N _ _ _ _ P2). exact HS.
+    + rewrite HF, upd_same. auto.
+    + exact Em.
+Qed.
+
+(* L4: the single-word loop *)
+Lemma sub10VW_L4_loop r : forall fr r11 ax bx i c fl m cf mf,
+  rips (S r) z x i c m = (cf, mf) ->
+  0 <= i -> i + Z.of_nat (S r) = n -> 0 <= c < B -> wfrom x n m i ->
+  exists N r11' ax' fl',
+    steps N E P (stS fr r11 ax bx c B i (Z.of_nat (S r)) fl m 48) =
+    Some (stS fr r11' ax' bx cf B n 0 fl' mf 60).
+Proof.
+  induction r as [|r IH]; intros fr r11 ax bx i c fl m cf mf HG Hi0 Hn Hc Hw;
+    rewrite rips_S in HG; pose proof (Hw i ltac:(lia)) as Wx0;
+    pose proof (rws_carry (m (x + i)) c) as Hc0; pose proof B_pos as HB; pose proof HALF64_lt_B; pose proof HALF64_ge.
+  - destruct (sub10VW_L4_iter fr r11 ax bx i (Z.of_nat 1) c fl m) as (fl1 & HB1); try lia.
+    cbn [rips] in HG. apply pair_eq_inv in HG as [E1 E2]. subst cf mf.
+    destruct (Z.ltb_spec 1 (Z.of_nat 1)); [lia|].
+    exists 12%nat. do 3 eexists. rewrite HB1.
+    replace (i + 1) with n by lia. reflexivity.
+  - destruct (sub10VW_L4_iter fr r11 ax bx i (Z.of_nat (S (S r))) c fl m) as (fl1 & HB1); try lia.
+    destruct (Z.ltb_spec 1 (Z.of_nat (S (S r)))); [|lia].
+    replace (Z.of_nat (S (S r)) - 1) with (Z.of_nat (S r)) in HB1 by lia.
+    destruct (IH fr (fst (rws (m (x + i)) c)) (Z.land B (neg64 (snd (rws (m (x + i)) c)))) bx (i + 1) _ fl1 _ cf mf HG)
+      as (N & e2 & a2 & fl2 & HS2); try lia.
+    { apply wfrom_upd; [exact Ha | lia | exact Hw]. }
+    exists (12 + N)%nat, e2, a2, fl2.
+    rewrite (steps_add 12 N _ _ _ _ HB1). exact HS2.
+Qed.
+
+(* V4: fewer than four words left *)
+Lemma sub10VW_tail (r : nat) fr r11 ax bx c fl m cf mf :
+  rips r z x (n - Z.of_nat r) c m = (cf, mf) ->
+  (r < 4)%nat -> Z.of_nat r <= n -> 0 <= c < B -> wfrom x n m (n - Z.of_nat r) ->
+  exists N s', steps N E P (stS fr r11 ax bx c B (n - Z.of_nat r) (sub_lo (Z.of_nat r) 4 0) fl m 45) = Some s' /\
+               nth_error P (st_pc s') = Some RET /\ st_frame s' = upd fr 7 cf /\ st_mem s' = mf.
+Proof.
+  intros HG Hr Hrn Hc Hw. bw.
+  assert (Esub : sub_lo (Z.of_nat r) 4 0 = Z.of_nat r - 4 + W64) by (rewrite sub_lo_under; lia).
+  assert (Pre : steps 3 E P (stS fr r11 ax bx c B (n - Z.of_nat r) (sub_lo (Z.of_nat r) 4 0) fl m 45) =
+          Some (stS fr r11 ax bx c B (n - Z.of_nat r) (Z.of_nat r)
+                    (flags_add (sub_lo (Z.of_nat r) 4 0) 4 0) m (if Z.of_nat r <=? 0 then 60%nat else 48%nat))).
+  { pose proof (sub_lo_range (Z.of_nat r) 4 0) as Hsr. pose proof HALF64_ge.
+    unfold stV. step'' P. step'' P.
+    replace (add_lo (sub_lo (Z.of_nat r) 4 0) 4 0) with (Z.of_nat r) by (rewrite Esub, add_lo_over; lia).
+    step'' P. rewrite cond_le_add by lia.
+    replace (signed (sub_lo (Z.of_nat r) 4 0)) with (Z.of_nat r - 4)
+      by (rewrite Esub; destruct (signed_cases (Z.of_nat r - 4 + W64)) as [[? ?] | [? ->]]; lia).
+    rewrite (signed_small 4) by lia. replace (Z.of_nat r - 4 + 4) with (Z.of_nat r) by lia.
+    destruct (Z.of_nat r <=? 0); reflexivity. }
+  destruct r as [|r].
+  - cbn [rips] in HG. apply pair_eq_inv in HG as [E1 E2]. subst cf mf.
+    change (Z.of_nat 0 <=? 0) with true in Pre. cbv iota in Pre.
+    destruct (sub10VW_E4 fr r11 ax bx c B (n - Z.of_nat 0) (Z.of_nat 0) (flags_add (sub_lo (Z.of_nat 0) 4 0) 4 0) m)
+      as (s' & HS & HR & HF & HM).
+    exists (3 + 2)%nat, s'. split; [|auto].
+    rewrite (steps_add 3 2 _ _ _ _ Pre). exact HS.
+  - destruct (Z.leb_spec (Z.of_nat (S r)) 0); [lia|].
+    destruct (sub10VW_L4_loop r fr r11 ax bx (n - Z.of_nat (S r)) c
+                (flags_add (sub_lo (Z.of_nat (S r)) 4 0) 4 0) m cf mf HG)
+      as (N & e2 & a2 & fl2 & HS2); try lia; try assumption.
+    destruct (sub10VW_E4 fr e2 a2 bx cf B n 0 fl2 mf) as (s' & HS & HR & HF & HM).
+    exists (3 + (N + 2))%nat, s'. split; [|auto].
+    rewrite (steps_add 3 (N + 2) _ _ _ _ Pre). rewrite (steps_add N 2 _ _ _ _ HS2). exact HS.
+Qed.
+
+(* U4: the unrolled loop, left through C4 (borrow absorbed) or V4 *)
+Lemma sub10VW_U4_loop q : forall (r : nat) fr r11 ax bx i c fl m cf mf,
+  rips (4 * S q + r) z x i c m = (cf, mf) ->
+  (r < 4)%nat -> 0 <= i -> i + 4 * Z.of_nat (S q) + Z.of_nat r = n ->
+  0 <= c < B -> wfrom x n m i ->
+  exists N s', steps N E P (stS fr r11 ax bx c B i (4 * Z.of_nat q + Z.of_nat r) fl m 8) = Some s' /\
+               nth_error P (st_pc s') = Some RET /\ st_frame s' 7 = cf /\ mem_eq (st_mem s') mf.
+Proof.
+  induction q as [|q IH]; intros r fr r11 ax bx i c fl m cf mf HG Hr Hi0 Hn Hc Hw; bw; pose proof HALF64_ge.
+  - replace (4 * 1 + r)%nat with (S (S (S (S r)))) in HG by lia.
+    replace (4 * Z.of_nat 0 + Z.of_nat r) with (Z.of_nat r) by lia.
+    rewrite (rips_4 r i c m Hi0 ltac:(lia)) in HG.
+    destruct (sub10VW_block fr r11 ax bx i (Z.of_nat r) c fl m Hi0 ltac:(lia) Hc Hw) as (fl1 & HB1).
+    cbv zeta in HB1, HG.
+    set (w3 := rws (m (x + i + 3)) _) in *. pose proof (rws_carry (m (x + i + 3)) (snd (rws (m (x + i + 2)) (snd (rws (m (x + i + 1)) (snd (rws (m (x + i)) c))))))) as Hc3.
+    fold w3 in Hc3.
+    match type of HB1 with _ = Some (stV _ _ _ _ _ _ _ _ _ _ _ _ _ _ _ ?mm _) => set (m4 := mm) in * end.
+    assert (Hw4 : wfrom x n m4 (i + 4)) by (apply wfrom_upd4; assumption).
+    destruct (Z.eqb_spec (snd w3) 0) as [E0 | N0].
+    + rewrite E0 in HB1, HG.
+      destruct (sub10VW_absorbed r fr r11 (Z.land B (neg64 0)) (fst w3) B (i + 4) fl1 m4 cf mf HG ltac:(lia) ltac:(lia) Hw4)
+        as (N & s' & HS & HR & HF & HM).
+      exists (35 + N)%nat, s'. split; [|auto]. rewrite (steps_add 35 N _ _ _ _ HB1). exact HS.
+    + assert (P2 : steps 2 E P (stS fr r11 (Z.land B (neg64 (snd w3))) (fst w3) (snd w3) B (i + 4) (Z.of_nat r) fl1 m4 43) =
+                   Some (stS fr r11 (Z.land B (neg64 (snd w3))) (fst w3) (snd w3) B (i + 4) (sub_lo (Z.of_nat r) 4 0)
+                             (flags_sub (Z.of_nat r) 4 0) m4 45)).
+      { unfold stV. step'' P. step'' P. rewrite cond_ge_sub by lia.
+        rewrite (signed_small 4), (signed_small (Z.of_nat r)) by lia.
+        destruct (Z.leb_spec 4 (Z.of_nat r)); [lia|]. cbv beta iota. cbn [steps].
+        reflexivity. }
+      replace (i + 4) with (n - Z.of_nat r) in * by lia.
+      destruct (sub10VW_tail r fr r11 (Z.land B (neg64 (snd w3))) (fst w3) (snd w3) (flags_sub (Z.of_nat r) 4 0) m4 cf mf HG Hr ltac:(lia) ltac:(lia) Hw4)
+        as (N & s' & HS & HR & HF & HM).
+      exists (35 + (2 + N))%nat, s'. split; [|split; [exact HR|split]].
+      * rewrite (steps_add 35 (2 + N) _ _ _ _ HB1). rewrite (steps_add 2 N _ _ _ _ P2). exact HS.
+      * rewrite HF. apply upd_same.
+      * rewrite HM. intro; reflexivity.
+  - replace (4 * S (S q) + r)%nat with (S (S (S (S (4 * S q + r))))) in HG by lia.
+    rewrite (rips_4 _ i c m Hi0 ltac:(lia)) in HG.
+    destruct (sub10VW_block fr r11 ax bx i (4 * Z.of_nat (S q) + Z.of_nat r) c fl m Hi0 ltac:(lia) Hc Hw) as (fl1 & HB1).
+    cbv zeta in HB1, HG.
+    set (w3 := rws (m (x + i + 3)) _) in *. pose proof (rws_carry (m (x + i + 3)) (snd (rws (m (x + i + 2)) (snd (rws (m (x + i + 1)) (snd (rws (m (x + i)) c))))))) as Hc3.
+    fold w3 in Hc3.
+    match type of HB1 with _ = Some (stV _ _ _ _ _ _ _ _ _ _ _ _ _ _ _ ?mm _) => set (m4 := mm) in * end.
+    assert (Hw4 : wfrom x n m4 (i + 4)) by (apply wfrom_upd4; assumption).
+    destruct (Z.eqb_spec (snd w3) 0) as [E0 | N0].
+    + rewrite E0 in HB1, HG.
+      destruct (sub10VW_absorbed (4 * S q + r) fr r11 (Z.land B (neg64 0)) (fst w3) B (i + 4) fl1 m4 cf mf HG ltac:(lia) ltac:(lia) Hw4)
+        as (N & s' & HS & HR & HF & HM).
+      replace (Z.of_nat (4 * S q + r)) with (4 * Z.of_nat (S q) + Z.of_nat r) in HS by lia.
+      exists (35 + N)%nat, s'. split; [|auto]. rewrite (steps_add 35 N _ _ _ _ HB1). exact HS.
+    + assert (P2 : steps 2 E P (stS fr r11 (Z.land B (neg64 (snd w3))) (fst w3) (snd w3) B (i + 4) (4 * Z.of_nat (S q) + Z.of_nat r) fl1 m4 43) =
+                   Some (stS fr r11 (Z.land B (neg64 (snd w3))) (fst w3) (snd w3) B (i + 4) (4 * Z.of_nat q + Z.of_nat r)
+                             (flags_sub (4 * Z.of_nat (S q) + Z.of_nat r) 4 0) m4 8)).
+      { unfold stV. step'' P. step'' P. rewrite cond_ge_sub by lia.
+        rewrite (signed_small 4), (signed_small (4 * Z.of_nat (S q) + Z.of_nat r)) by lia.
+        destruct (Z.leb_spec 4 (4 * Z.of_nat (S q) + Z.of_nat r)); [|lia]. cbv beta iota. cbn [steps].
+        rewrite (sub_lo_small (4 * Z.of_nat (S q) + Z.of_nat r) 4 0) by lia.
+        replace (4 * Z.of_nat (S q) + Z.of_nat r - 4 - 0) with (4 * Z.of_nat q + Z.of_nat r) by lia. reflexivity. }
+      destruct (IH r fr r11 (Z.land B (neg64 (snd w3))) (fst w3) (i + 4) (snd w3) (flags_sub (4 * Z.of_nat (S q) + Z.of_nat r) 4 0) m4 cf mf HG Hr
+                  ltac:(lia) ltac:(lia) ltac:(lia) Hw4) as (N & s' & HS & HR & HF & HM).
+      exists (35 + (2 + N))%nat, s'. split; [|auto].
+      rewrite (steps_add 35 (2 + N) _ _ _ _ HB1). rewrite (steps_add 2 N _ _ _ _ P2). exact HS.
+Qed.
+End Sub10VW.
+
+Theorem asm_sub10VW_correct E n z x y rs m :
+  8 * e_msize E <= W64 ->
+  0 <= z -> z + Z.of_nat n <= e_msize E -> 0 <= x -> x + Z.of_nat n <= e_msize E ->
+  asc_ok z x (Z.of_nat n) -> 0 <= y < B -> words_ok (rd m x n) = true ->
+  exists N s', (forall f, run (N + S f) E prog_sub10VW
+                             (init_state rs (slice z n ++ slice x n ++ [y]) m) = Some s') /\
+               st_frame s' 7 = snd (spec_sub10VW (rd m x n) y) /\
+               mem_eq (st_mem s') (wr m z (fst (spec_sub10VW (rd m x n) y))).
+Proof.
+  intros Hm Hz0 Hz1 Hx0 Hx1 Ha Hy Hwx. bw. pose proof HALF64_ge.
+  assert (HnH : Z.of_nat n < HALF64) by lia.
+  destruct rs as [ax bx cx dx si di r8 r9 r10 r11 r12 r13 r14].
+  unfold init_state.
+  set (fr := frame_of (slice z n ++ slice x n ++ [y])).
+  assert (F0 : fr 0 = 8 * z) by reflexivity. assert (F1 : fr 1 = Z.of_nat n) by reflexivity.
+  assert (F3 : fr 3 = 8 * x) by reflexivity. assert (F6 : fr 6 = y) by reflexivity. clearbody fr.
+  unfold spec_sub10VW, nlen, Bn. cbn [fst snd]. rewrite rd_length, zlen_rd.
+  destruct (rips_spec (Z.of_nat n) z x Ha n 0 y m) as [Gr Gm]; try lia; rewrite ?Z.add_0_r; try assumption.
+  cbv zeta in Gr, Gm. rewrite (Z.add_0_r x) in Gr. rewrite (Z.add_0_r x), (Z.add_0_r z) in Gm.
+  destruct (rips n z x 0 y m) as [cf mf] eqn:EL. cbn [fst snd] in Gr, Gm.
+  pose proof (rd_words_ok_nth m x n Hwx) as Hwn.
+  assert (Hw0 : wfrom x (Z.of_nat n) m 0) by (intros j Hj; apply Hwn; lia).
+  assert (Pre : steps 8 E prog_sub10VW
+            (mkState (mkRegs ax bx cx dx si di r8 r9 r10 r11 r12 r13 r14) flags0 m fr 0) =
+          Some (stV z x r9 r12 r13 r14 fr r11 ax bx y B 0 (sub_lo (Z.of_nat n) 4 0)
+                    (flags_sub (Z.of_nat n) 4 0) m (if Z.of_nat n <? 4 then 45%nat else 8%nat))).
+  { unfold stV.
+    step'' prog_sub10VW. rewrite F1. step'' prog_sub10VW. rewrite F3.
+    step'' prog_sub10VW. rewrite F6. step'' prog_sub10VW. rewrite F0.
+    step'' prog_sub10VW. rewrite Z.lxor_nilpotent.
+    step'' prog_sub10VW. replace 10000000000000000000 with B by (rewrite B_eq; reflexivity).
+    step'' prog_sub10VW.
+    step'' prog_sub10VW. rewrite cond_l_sub by lia. rewrite (signed_small (Z.of_nat n)), (signed_small 4) by lia.
+    destruct (Z.of_nat n <? 4); reflexivity. }
+  assert (Tail : exists N s', steps N E prog_sub10VW
+                    (mkState (mkRegs ax bx cx dx si di r8 r9 r10 r11 r12 r13 r14) flags0 m fr 0) = Some s' /\
+                  nth_error prog_sub10VW (st_pc s') = Some RET /\ st_frame s' 7 = cf /\ mem_eq (st_mem s') mf).
+  { destruct (Z.ltb_spec (Z.of_nat n) 4) as [Hlt | Hge].
+    - (* short vector: only the single-word loop *)
+      destruct (sub10VW_tail E z x (Z.of_nat n) r9 r12 r13 r14 Hm Ha Hx0 Hz0 Hx1 Hz1 HnH n fr r11 ax bx y
+                  (flags_sub (Z.of_nat n) 4 0) m cf mf) as (N & s' & HS & HR & HF & HM); try lia.
+      { now rewrite Z.sub_diag. } { now rewrite Z.sub_diag. }
+      rewrite Z.sub_diag in HS.
+      exists (8 + N)%nat, s'. split; [|split; [exact HR|split]].
+      + rewrite (steps_add 8 N _ _ _ _ Pre). exact HS.
+      + rewrite HF. apply upd_same.
+      + rewrite HM. intro; reflexivity.
+    - (* n = 4 (q + 1) + r *)
+      set (q := (n / 4 - 1)%nat). set (r := (n mod 4)%nat).
+      assert (En : n = (4 * S q + r)%nat).
+      { unfold q, r. pose proof (Nat.div_mod n 4 ltac:(lia)).
+        assert (1 <= n / 4)%nat by (apply Nat.div_le_lower_bound; lia). lia. }
+      assert (Hr : (r < 4)%nat) by (unfold r; apply Nat.mod_upper_bound; lia).
+      rewrite En in EL.
+      destruct (sub10VW_U4_loop E z x (Z.of_nat n) r9 r12 r13 r14 Hm Ha Hx0 Hz0 Hx1 Hz1 HnH q r
+                  fr r11 ax bx 0 y (flags_sub (Z.of_nat n) 4 0) m cf mf EL)
+        as (N1 & s' & HS1 & HR & HF & HM); try lia; try assumption.
+      exists (8 + N1)%nat, s'. split; [|auto].
+      rewrite (steps_add 8 N1 _ _ _ _ Pre).
+      rewrite (sub_lo_small (Z.of_nat n) 4 0) by lia.
+      replace (Z.of_nat n - 4 - 0) with (4 * Z.of_nat q + Z.of_nat r) by lia.
+      exact HS1. }
+  destruct Tail as (N & s' & HS & HR & HF & HM).
+  exists N, s'. split.
+  - intros f. rewrite (run_steps N (S f) _ _ _ _ HS). now apply run_ret.
+  - split; [rewrite HF; exact Gr|]. intros a. rewrite HM. apply Gm.
 Qed.
